@@ -18,7 +18,7 @@ import CpModel.UrlEncBind
 
     reqx <uri> <qsenc> <path-hex> <qs-hex> <pb 0|1> <len 0|1> <procs> <ctype> <declared|N> <configured|N> <body-hex> <fields>
          whole request, every body dimension (`handleX`)                 → `H <params>` | `S <code>`
-    resp <sig> <nargs> <the twelve reqx fields>   `respond`           → `H <params>` | `S <code>`
+    resp <sig> <nargs> <late> <the twelve reqx fields>   `respond` (late = `~` | `<key-text>:<value-text>` joined by `,`)           → `H <params>` | `S <code>`
     bind <sig> <nargs> <kwargs>   PageHandler.__call__ / test_callable_spec
                                                     → `ok=<0|1> spec=<N|code> dec=<C|code>`
     sel  <procs> <ctype>       Entity.process processor choice     → `u` | `f` | `o` | `p` | `n`
@@ -116,6 +116,15 @@ def parseFlagged (s : String) : Option (List (Text × Bool)) :=
       pure (k, b)
     | _ => none
 
+def parseLate (s : String) : Option (List (Text × Text)) :=
+  if s == "~" then some [] else (s.splitOn ",").mapM fun e =>
+    match e.splitOn ":" with
+    | [k, v] => do
+      let k ← Proto.untext? k
+      let v ← Proto.untext? v
+      pure (k, v)
+    | _ => none
+
 def parseSig (s : String) : Option Sig :=
   match s.splitOn ";" with
   | [sn, sp, ps, po, nd, va, ko, vk] => do
@@ -161,10 +170,10 @@ def step (line : String) : String :=
     match parseReqX uri enc path qs pb len procs ct decl conf body flds with
     | some r => showOutcome (handleX r)
     | none => "bad-op"
-  | ["resp", sig, nargs, uri, enc, path, qs, pb, len, procs, ct, decl, conf, body, flds] =>
-    match parseSig sig, nargs.toNat?, parseReqX uri enc path qs pb len procs ct decl conf body flds with
-    | some s, some n, some r => showOutcome (respond r s n)
-    | _, _, _ => "bad-op"
+  | ["resp", sig, nargs, late, uri, enc, path, qs, pb, len, procs, ct, decl, conf, body, flds] =>
+    match parseSig sig, nargs.toNat?, parseLate late, parseReqX uri enc path qs pb len procs ct decl conf body flds with
+    | some s, some n, some l, some r => showOutcome (respond r s n l)
+    | _, _, _, _ => "bad-op"
   | ["bind", sig, nargs, kwargs] =>
     match parseSig sig, nargs.toNat?, parseFlagged kwargs with
     | some s, some n, some kw =>
